@@ -5,11 +5,12 @@ Import ListNotations.
 Local Open Scope string_scope.
 Local Open Scope list_scope.
 
-Lemma usize_of_N n : usize_of (Z.of_N n) = Some n.
+Lemma usize_of_N n : (n <= 18446744073709551615)%N -> usize_of (Z.of_N n) = Some n.
 Proof.
-  unfold usize_of. destruct (Z.of_N n <? 0)%Z eqn:E.
-  - apply Z.ltb_lt in E. pose proof (N2Z.is_nonneg n). lia.
-  - now rewrite N2Z.id.
+  intros Hn. unfold usize_of.
+  assert ((Z.of_N n <? 0)%Z = false) as -> by (apply Z.ltb_ge; apply N2Z.is_nonneg).
+  assert ((18446744073709551615 <? Z.of_N n)%Z = false) as -> by (apply Z.ltb_ge; lia).
+  cbn [orb]. now rewrite N2Z.id.
 Qed.
 
 Lemma type_ident_tail_stops rest acc : stops_type_ident rest -> type_ident_tail rest acc = (acc, rest).
@@ -28,16 +29,17 @@ Proof.
   - rewrite String.eqb_refl. cbn [String.eqb Ascii.eqb Bool.eqb]. rewrite IH by (auto; lia). reflexivity.
   - rewrite String.eqb_refl. cbn [String.eqb Ascii.eqb Bool.eqb]. rewrite IH by (auto; lia). reflexivity.
   - (* the array's inner tokens are followed by [; n], which stops the identifier loop *)
+    destruct Hwf as [Hwf Hn].
     rewrite (IH f [KPunct ";"; KInt (Z.of_N n)]); [| exact Hwf | cbn; split; discriminate | lia].
-    rewrite String.eqb_refl, usize_of_N. reflexivity.
+    rewrite String.eqb_refl, usize_of_N by exact Hn. reflexivity.
   - destruct Hwf as [Hs Hwf]. rewrite Hs. cbn [negb]. apply String.eqb_neq in Hwf. rewrite Hwf.
     rewrite (type_ident_tail_stops _ _ Hstop). reflexivity.
-  - change (syn_ident "unknown") with true. cbn [negb String.eqb Ascii.eqb Bool.eqb andb]. rewrite usize_of_N. reflexivity.
+  - change (syn_ident "unknown") with true. cbn [negb String.eqb Ascii.eqb Bool.eqb andb]. rewrite usize_of_N by exact Hwf. reflexivity.
 Qed.
 
 (** ** expressions and attribute lists *)
 Lemma parse_print_expr e rest : wf_expr e -> parse_expr (print_expr e ++ rest) = Some (e, rest).
-Proof. destruct e; cbn; intros H; try reflexivity. now rewrite H. Qed.
+Proof. destruct e; cbn [wf_expr print_expr app parse_expr]; intros H; try reflexivity; now rewrite H. Qed.
 
 Lemma parse_print_exprs : forall es fuel,
   Forall wf_expr es -> (List.length es < fuel)%nat ->
